@@ -7,6 +7,12 @@ HOOK_COMMITS = subprocess.run(
     capture_output=True, text=True).stdout.strip().splitlines()
 
 CHECKS = {
+ "C01": dict(
+   engine="proptest+simnet+libfuzzer",
+   technique="property-based testing with an adversary model: generated/forged/mutated certificates and handshake signatures against an independent x509-parser+ring acceptance predicate (exhaustive single-byte mutations), and generated adversarial handshakes by a raw QUIC endpoint on the simulated network; invariant over everything the victim attributes",
+   text="Every single-byte mutation of valid certificates is enumerated; forged chains, wrong keys, schemes and SNI are generated and driven through real handshakes in both roles. The oracle is one-directional (accept => reference accepts and identity == proven key). Exploration; TLS state-machine deviations are out of reach.",
+   note="Trusted: rustls TLS 1.3 state machine, webpki, ring; the adversary is limited to what stock rustls lets a party send (any chain, any signature bytes, any scheme label, any SNI).",
+   design="§4 C01"),
  "C02": dict(
    engine="simnet+proptest",
    technique="property-based testing on a simulated network: generated concurrent RPC traffic, frame limits and datagram fault scripts; oracle = pure response function F of the request + handler log (round-trip / at-most-once invariants)",
